@@ -48,7 +48,7 @@ def project(events, names):
     return out
 
 
-def validate_trace(events, names, relief, check_order=True, mutate=None, relaxed=False):
+def validate_trace(events, names, relief, check_order=True, mutate=None, relaxed=False, compressible=False):
     ev = project(events, names)
     if mutate:
         mutate(ev)
@@ -57,7 +57,7 @@ def validate_trace(events, names, relief, check_order=True, mutate=None, relaxed
     try:
         with open(path, "w") as f:
             json.dump(ev, f)
-        defs = {"SurfSeq": tlc.tla(list(names)), "Relief": "{" + ", ".join('"%s"' % r for r in relief) + "}", "CheckOrder": "TRUE" if check_order else "FALSE", "Relaxed": "TRUE" if relaxed else "FALSE"}
+        defs = {"SurfSeq": tlc.tla(list(names)), "Relief": "{" + ", ".join('"%s"' % r for r in relief) + "}", "CheckOrder": "TRUE" if check_order else "FALSE", "Relaxed": "TRUE" if relaxed else "FALSE", "Compressible": "TRUE" if compressible else "FALSE"}
         res = tlc.run_wrapped("TraceCoupled", "TraceCoupled.cfg", defs, workers=1, env={"TRACE_FILE": path}, timeout=600)
     finally:
         import shutil
@@ -78,16 +78,17 @@ def _trace_job(a):
     for i in range(nsurf):
         surfs.append(dict(name=["wing", "tail"][i], nx=2, ny=3 + (k + i) % 2, sym=True, side="L", shape=["swept", "all", "tapered"][(k + i) % 3], visc=True, fem="tube" if (k + i) % 3 else "wingbox", relief=(k + i) % 2 == 0,
                           span=[20.0, 8.0][i], chord=[3.0, 1.5][i], off=(0.0, 0.0, 0.0) if i == 0 else (12.0, 0.0, 1.0)))
-    m = B.ASModel(surfs, nl=nl, rng=rng)
+    comp = k % 4 >= 2  # every other pair of traces records the compressible coupled group
+    m = B.ASModel(surfs, nl=nl, rng=rng, compressible=comp, flow=dict(Mach_number=0.55) if comp else None)
     names = [s["name"] for s in surfs]
     relief = [s["name"] for s in surfs if s["relief"]]
     scope = "AS_point_0.coupled"
     with trace.Recorder(scope) as rec:
         rec.snapshot(m.prob.model.AS_point_0.coupled)
         m.prob.run_model()
-    v = validate_trace(rec.events, names, relief, check_order=nl.startswith("NLBGS"), relaxed=(nl != "NLBGS"))  # Aitken relaxation and Newton updates change the outputs between sweeps
-    out = {"k": k, "nl": nl, "events": len(rec.events), "accepted": v["accepted"], "reject": v["reject"], "states": v["states"], "surfs": [(s["name"], s["fem"], s["relief"]) for s in surfs], "controls": []}
-    if k == 0 and v["accepted"]:
+    v = validate_trace(rec.events, names, relief, check_order=nl.startswith("NLBGS"), relaxed=(nl != "NLBGS"), compressible=comp)  # Aitken relaxation and Newton updates change the outputs between sweeps
+    out = {"k": k, "nl": nl, "events": len(rec.events), "accepted": v["accepted"], "reject": v["reject"], "states": v["states"], "surfs": [(s["name"], s["fem"], s["relief"]) for s in surfs], "compressible": comp, "controls": []}
+    if k in (0, 2) and v["accepted"]:
         # binding demonstration: corrupting one recorded input fingerprint, or swapping two executions, must be rejected
         def corrupt(ev):
             for e in ev:
@@ -100,7 +101,7 @@ def _trace_job(a):
             ev[idx[3]], ev[idx[4]] = ev[idx[4]], ev[idx[3]]
 
         rl = nl != "NLBGS"
-        out["controls"] = [("corrupt_fingerprint", not validate_trace(rec.events, names, relief, True, corrupt, rl)["accepted"]), ("swap_executions", not validate_trace(rec.events, names, relief, True, swap, rl)["accepted"])]
+        out["controls"] = [("corrupt_fingerprint", not validate_trace(rec.events, names, relief, True, corrupt, rl, comp)["accepted"]), ("swap_executions", not validate_trace(rec.events, names, relief, True, swap, rl, comp)["accepted"])]
     return out
 
 
@@ -346,15 +347,16 @@ def _rigid_job(k):
 def run(tier, only=None):
     R = Run("C12", tier, "model_checking")
     for seq, rel in (('<<"wing">>', '{"wing"}'), ('<<"wing", "tail">>', '{"tail"}'), ('<<"a", "b", "c">>', '{"a", "c"}')):
-        res = tlc.run_wrapped("OASCoupled", "OASCoupled.cfg", {"SurfSeq": seq, "Relief": rel}, workers=4, constants={"MaxSweep": 3 if tier == "quick" else 5})
-        tlc.require_ok(res)
-        R.add_tlc(res)
+        for comp in ("FALSE", "TRUE"):
+            res = tlc.run_wrapped("OASCoupled", "OASCoupled.cfg", {"SurfSeq": seq, "Relief": rel}, workers=4, constants={"MaxSweep": 3 if tier == "quick" else 5, "Compressible": comp})
+            tlc.require_ok(res)
+            R.add_tlc(res)
     ntr = 4 if tier == "quick" else 48
     jobs = [(k, nl) for k in range(ntr) for nl in (("NLBGS_aitken", "NLBGS", "Newton")[k % 3],)]
     for r in check_exc(pmap(_trace_job, jobs)):
         R.replayed += 1
         R.tlc["states"] += r["states"]
-        R.case(["trace", r["k"], r["nl"]], True, sample={"trace": r["surfs"], "solver": r["nl"], "events": r["events"], "accepted": r["accepted"]}, section="trace_validation")
+        R.case(["trace", r["k"], r["nl"]], True, sample={"trace": r["surfs"], "solver": r["nl"], "compressible": r["compressible"], "events": r["events"], "accepted": r["accepted"]}, section="trace_validation")
         if not r["accepted"]:
             R.violation("trace:rejected:%s" % json.dumps(r["reject"].get("comp") if r["reject"] else None), {"k": r["k"], "nl": r["nl"], "reject": r["reject"], "surfs": r["surfs"]})
         for name, ok in r["controls"]:
